@@ -1,7 +1,7 @@
 #!/bin/bash
 # trial of the thorough commands on the unchanged tree with a small admission budget (exit code and machinery check)
 cd /verif
-out=/tmp/w0/thorough_trial2.out; : > $out
+out=/tmp/w0/thorough_trial3.out; : > $out
 for p in "$@"; do
   s=$(date +%s); VERIF_THOROUGH_BUDGET_S=${BUDGET:-240} VERIF_TIMEOUT_CAP_S=${CAP:-600} VERIF_EVIDENCE_SUFFIX=.thorough python3 check.py $p --tier thorough > /tmp/w0/thor_$p.log 2>&1; rc=$?
   echo "$p rc=$rc $(( $(date +%s) - s ))s viol=$(grep -cE '^VIOLATION' /tmp/w0/thor_$p.log) broken=$(grep -cE '^BROKEN' /tmp/w0/thor_$p.log) known=$(grep -cE '^KNOWN-FINDING' /tmp/w0/thor_$p.log) noverdict=$(grep -cE '^NO-VERDICT' /tmp/w0/thor_$p.log) $(grep -E '^NOT-EXPLORED' /tmp/w0/thor_$p.log | cut -c1-60)" >> $out
